@@ -1398,7 +1398,7 @@ def _flag_test(t: Term, base: Term, member: str) -> bool:
 
 def S10(ctx: Ctx) -> RuleResult:
     r = RuleResult('S10', 'access-path resolution: HplDataAccess.type_check_references walks .object down to the root while it is an accessor (collecting every accessor, itself included), takes the type of the root from the current message for `this` and from the caller\'s alias map for an alias, raises HplSanityError exactly when there is none, and then resolves the accessors from the root outwards: t = accessor._get_next_token(t), accessor checked against t.type; _get_next_token picks fields before constants (the token of a constant is entry[0]), the element type of an array, and raises otherwise')
-    from .terms import flat_guards, implied_literals, expand_outcomes, guards_consistent
+    from .terms import flat_guards, implied_literals, expand_outcomes, guards_consistent, eval_bool, NONE
     m = ctx.model
     da = m.cls('HplDataAccess', 'S10')
     fi = da.resolve('type_check_references')
@@ -1577,23 +1577,50 @@ def S10(ctx: Ctx) -> RuleResult:
     tokm = Sym('token', 'MessageType')
     evt = ctx.memo('S10_ev_tok', lambda: Evaluator(m, inline=helper_inline(('hpl.types', f1.module.name), exclude=('_type_check',))))
     seen = {'field': False, 'const': False, 'missing': False}
-    for o in expand_outcomes(evt.run(f1, {'self': s1, f1.params()[1]: tokm}, self_cls=fa)):
-        if not guards_consistent(o.guards):
-            continue
-        lits = dict(implied_literals(o.guards, 12))
-        if any(_flag_test(g, tokm, 'MESSAGE') and pol is False for g, pol in lits.items()):
-            continue
-        in_f = lits.get(Op('in', (Attr(s1, 'field'), Attr(tokm, 'fields'))))
-        in_c = lits.get(Op('in', (Attr(s1, 'field'), Attr(tokm, 'constants'))))
-        desc = f'[{guards_repr(norm_guards(o.guards))[-90:]}] {o.kind} {str(o.value)[:50]}'
-        if in_f is True and o.kind == 'return' and o.value == Sub(Attr(tokm, 'fields'), Attr(s1, 'field')):
-            seen['field'] = True
-        elif in_f is False and in_c is True and o.kind == 'return' and o.value == Sub(Sub(Attr(tokm, 'constants'), Attr(s1, 'field')), Const(0)):
-            seen['const'] = True
-        elif in_f is False and in_c is False and o.kind == 'raise':
-            seen['missing'] = True
-        else:
-            r.fail('HplFieldAccess._get_next_token:case', f'unexpected case {desc}: expected fields[name] if the name is a field, else constants[name][0] if it is a constant, else an error', f'{f1.module.relpath}:{o.lineno}')
+    name_t, fields_t, consts_t = Attr(s1, 'field'), Attr(tokm, 'fields'), Attr(tokm, 'constants')
+
+    def lookup_atoms(t: Term, in_f: bool, in_c: bool, known: Dict[Term, bool]):
+        """truth of the membership / .get() tests on the two tables when the name is (not) a field / a constant; the
+        tables hold type tokens and (token, value) pairs, never None"""
+        for x in walk(t):
+            if isinstance(x, Op) and x.op in ('in', 'not in') and len(x.args) == 2 and x.args[0] == name_t and x.args[1] in (fields_t, consts_t):
+                v = in_f if x.args[1] == fields_t else in_c
+                known[x] = v if x.op == 'in' else not v
+            if isinstance(x, Op) and x.op in ('is', 'is not', '==', '!=') and len(x.args) == 2 and NONE in x.args:
+                other = x.args[0] if x.args[1] == NONE else x.args[1]
+                if isinstance(other, Call) and call_name(other) == 'get' and call_recv(other) in (fields_t, consts_t) and other.args and other.args[0] == name_t \
+                        and (len(other.args) == 1 or other.args[1] == NONE):
+                    present = in_f if call_recv(other) == fields_t else in_c
+                    known[x] = (not present) if x.op in ('is', '==') else present
+    outs1 = [o for o in expand_outcomes(evt.run(f1, {'self': s1, f1.params()[1]: tokm}, self_cls=fa)) if guards_consistent(o.guards)]
+    for in_f, in_c in ((True, True), (True, False), (False, True), (False, False)):
+        which = 'field' if in_f else 'const' if in_c else 'missing'
+        applicable = 0
+        for o in outs1:
+            known: Dict[Term, bool] = {}
+            for g, _ in o.guards:
+                lookup_atoms(g, in_f, in_c, known)
+            verdicts = [eval_bool(g, known) for g, _ in o.guards]
+            rel = [(v, pol) for (g, pol), v in zip(o.guards, verdicts) if any(isinstance(x, Op) and x in known for x in walk(g))]
+            if any(v is not None and v != pol for v, pol in rel):
+                continue    # this path is not taken for such a name
+            if any(_flag_test(g, tokm, 'MESSAGE') and pol is False for g, pol in implied_literals(o.guards, 12)):
+                continue
+            if any(v is None for v, pol in rel):
+                r.fail('HplFieldAccess._get_next_token:case', f'a test on the lookup tables is not understood: [{guards_repr(norm_guards(o.guards))[-90:]}]', f'{f1.module.relpath}:{o.lineno}')
+                continue
+            applicable += 1
+            desc = f'[{guards_repr(norm_guards(o.guards))[-90:]}] {o.kind} {str(o.value)[:50]}'
+            val = o.value
+            is_field_val = o.kind == 'return' and (val == Sub(fields_t, name_t) or (isinstance(val, Call) and call_name(val) == 'get' and call_recv(val) == fields_t and val.args[:1] == (name_t,)))
+            is_const_val = o.kind == 'return' and isinstance(val, Sub) and val.index == Const(0) and (val.base == Sub(consts_t, name_t) or (isinstance(val.base, Call) and call_name(val.base) == 'get' and call_recv(val.base) == consts_t and val.base.args[:1] == (name_t,)))
+            good = is_field_val if in_f else is_const_val if in_c else o.kind == 'raise'
+            if good:
+                seen[which] = True
+            else:
+                r.fail('HplFieldAccess._get_next_token:case', f'unexpected case {desc} for a name that is {"a field" if in_f else "a constant only" if in_c else "neither a field nor a constant"}: expected fields[name] if the name is a field, else constants[name][0] if it is a constant, else an error', f'{f1.module.relpath}:{o.lineno}')
+        if not applicable:
+            r.fail(f'HplFieldAccess._get_next_token:{which}:total', f'no path for a name that is {"a field" if in_f else "a constant only" if in_c else "neither a field nor a constant"}', f1.where)
     for k, label in (('field', 'name in fields -> fields[name]'), ('const', 'else name in constants -> constants[name][0]'), ('missing', 'else -> error')):
         (r.ok(f'HplFieldAccess._get_next_token: {label}') if seen[k] else r.fail(f'HplFieldAccess._get_next_token:{k}', f'missing case: {label}', f1.where))
     aa = m.cls('HplArrayAccess', 'S10')
